@@ -104,7 +104,7 @@ def mutation_shard(ctx, shard, check, profiles=('small', 'small', 'lists', 'smal
         src = G.render(nodes)
         cap = 240 if ctx.thorough else 120
         src = src[:cap]
-        for kind, pos, s in T.mutations(src, alpha, limit=None if len(src) <= 30 else (400 if not ctx.thorough else 2500)):
+        for kind, pos, s in T.mutations(src, alpha, limit=None if len(src) <= 30 else (400 if not ctx.thorough else 1000)):
             try:
                 judged, nt, labels = check(s, 'mutation:' + kind)
             except H.Violation as v:
